@@ -18,7 +18,7 @@ func init() {
 			"method unlocked; the bytes stored are a copy made inside Set and the bytes returned are a copy made inside Get; absent keys report driver.ErrNotExist in every " +
 			"backend for Get and Delete; the maintenance API passes the path key through unchanged, writes the bytes it read and maps not-exist to 404; file-name encoder and " +
 			"decoder use the same base64 alphabet; key listing filters on the decoded key.",
-		NotDecided: "that distinct keys map to non-conflicting paths (the pinned defect: a key whose encoding is <=255 bytes becomes a file that a longer key needs as its first directory) — needs string-length reasoning no rule here does soundly; file-system name limits; reopen behaviour.",
+		NotDecided: "injectivity of the key-to-path mapping in general (decided: directory components carry a marker outside the file-name alphabet, the empty key has a name, single components are length-tested on the returned string); file-system path limits (PATH_MAX in the listing walk); reopen behaviour; the maintenance API's JSON rendering of keys that are not valid UTF-8.",
 		Rules: []Rule{
 			{ID: "C14.1", Desc: "lock discipline", Run: ruleC14_1, MinSites: 4},
 			{ID: "C14.2", Desc: "copy-in / copy-out isolation", Run: ruleC14_2, MinSites: 2},
@@ -654,26 +654,33 @@ func ruleC14_4(c *Ctx) {
 			// not-exist => 404
 			is404 := false
 			usesNotExist := false
-			instrsOf(fn, func(i2 ssa.Instruction) {
-				c2 := callOf(i2)
-				if c2 == nil {
-					return
-				}
-				if callIsPkgFunc(c2, "net/http", "Error") && len(c2.Args) == 3 {
-					if k, ok := constInt(c2.Args[2]); ok && k == 404 {
-						is404 = true
+			// the reply may be written by a helper shared by the handlers
+			var scope []*ssa.Function
+			for _, g := range c.reachableFrom(fn) {
+				scope = append(scope, g)
+			}
+			for _, g := range scope {
+				instrsOf(g, func(i2 ssa.Instruction) {
+					c2 := callOf(i2)
+					if c2 == nil {
+						return
 					}
-				}
-				if callIsPkgFunc(c2, "errors", "Is") {
-					for _, a := range c2.Args {
-						if u, ok := a.(*ssa.UnOp); ok && u.Op == token.MUL {
-							if g, ok := u.X.(*ssa.Global); ok && g.Name() == "ErrNotExist" {
-								usesNotExist = true
+					if callIsPkgFunc(c2, "net/http", "Error") && len(c2.Args) == 3 {
+						if k, ok := constInt(c2.Args[2]); ok && k == 404 {
+							is404 = true
+						}
+					}
+					if callIsPkgFunc(c2, "errors", "Is") {
+						for _, a := range c2.Args {
+							if u, ok := a.(*ssa.UnOp); ok && u.Op == token.MUL {
+								if g, ok := u.X.(*ssa.Global); ok && g.Name() == "ErrNotExist" {
+									usesNotExist = true
+								}
 							}
 						}
 					}
-				}
-			})
+				})
+			}
 			if is404 && usesNotExist {
 				c.Pass("C14.4", "api-404 "+cc.Method.Name()+" fn="+c.P.ShortName(fn), "an absent key is answered 404", where)
 			} else {
